@@ -7,7 +7,7 @@ task-creation models assume. -/
 namespace SciVerif.Tie
 -- PIN-NOT: Scipipe.Task_Execute Scipipe.FinalizePaths Scipipe.Task_writeAuditLogs
 -- functions the model relies on without an obligation of its own naming them (pinned by bin/mkpins):
--- PIN-ALSO: Scipipe.InPort_Recv Scipipe.InParamPort_Recv Scipipe.InPort_From Scipipe.InParamPort_From Scipipe.OutPort_To Scipipe.OutParamPort_To Scipipe.InPort_AddRemotePort Scipipe.OutPort_AddRemotePort Scipipe.InParamPort_AddRemotePort Scipipe.OutParamPort_AddRemotePort Scipipe.InPort_removeRemotePort Scipipe.OutPort_removeRemotePort Scipipe.BaseProcess_CloseAllOutPorts Scipipe.BaseProcess_CloseOutParamPorts Scipipe.getBufsize Scipipe.NewOutPort Scipipe.NewOutParamPort Scipipe.InParamPort_FromStr Scipipe.BaseProcess_InitInPort Scipipe.BaseProcess_InitOutPort Scipipe.BaseProcess_InitInParamPort Scipipe.BaseProcess_InitOutParamPort Scipipe.Process_In Scipipe.Process_Out Scipipe.Process_InParam Scipipe.Process_OutParam Scipipe.NewProc Scipipe.Workflow_NewProc Scipipe.NewBaseProcess Scipipe.BaseProcess_InPort Scipipe.BaseProcess_OutPort Scipipe.BaseProcess_InParamPort Scipipe.BaseProcess_OutParamPort Scipipe.BaseProcess_InPorts Scipipe.BaseProcess_OutPorts Scipipe.BaseProcess_InParamPorts Scipipe.BaseProcess_OutParamPorts Scipipe.InPort_SetProcess Scipipe.OutPort_SetProcess Scipipe.InPort_Process Scipipe.OutPort_Process Scipipe.OutParamPort_Process Scipipe.InParamPort_Process
+-- PIN-ALSO: Scipipe.InPort_Recv Scipipe.InParamPort_Recv Scipipe.InPort_From Scipipe.InParamPort_From Scipipe.OutPort_To Scipipe.OutParamPort_To Scipipe.InPort_AddRemotePort Scipipe.OutPort_AddRemotePort Scipipe.InParamPort_AddRemotePort Scipipe.OutParamPort_AddRemotePort Scipipe.InPort_removeRemotePort Scipipe.OutPort_removeRemotePort Scipipe.BaseProcess_CloseAllOutPorts Scipipe.BaseProcess_CloseOutParamPorts Scipipe.getBufsize Scipipe.NewOutPort Scipipe.NewOutParamPort Scipipe.InParamPort_FromStr Scipipe.BaseProcess_InitInPort Scipipe.BaseProcess_InitOutPort Scipipe.BaseProcess_InitInParamPort Scipipe.BaseProcess_InitOutParamPort Scipipe.Process_In Scipipe.Process_Out Scipipe.Process_InParam Scipipe.Process_OutParam Scipipe.NewProc Scipipe.Workflow_NewProc Scipipe.NewBaseProcess Scipipe.BaseProcess_InPort Scipipe.BaseProcess_OutPort Scipipe.BaseProcess_InParamPort Scipipe.BaseProcess_OutParamPort Scipipe.BaseProcess_InPorts Scipipe.BaseProcess_OutPorts Scipipe.BaseProcess_InParamPorts Scipipe.BaseProcess_OutParamPorts Scipipe.InPort_SetProcess Scipipe.OutPort_SetProcess Scipipe.InPort_Process Scipipe.OutPort_Process Scipipe.OutParamPort_Process Scipipe.InParamPort_Process Scipipe.InParamPort_FromInt Scipipe.InParamPort_FromFloat
 open SciVerif.Generated
 
 def noEarlyExit (l : List Atom) : Bool := count (fun a => a.kind == .break_ || a.kind == .ret_ || a.kind == .goto_) l == 0
@@ -66,6 +66,7 @@ theorem generated_proc_sem_good_c04 : Proc.good procSem := by decide
 
 
 
+
 -- BEGIN PINS (written by bin/mkpins; do not edit by hand)
 /-- the Go functions this property's model and obligations were written against have exactly the
 pinned skeletons (SHA-256 prefix of the atom list) -/
@@ -92,6 +93,8 @@ theorem pinned_skeletons_c04 :
      ("Scipipe.InParamPort_AddRemotePort", "3305ddf163d24713"),
      ("Scipipe.InParamPort_CloseConnection", "0b1304b246603bb9"),
      ("Scipipe.InParamPort_From", "91dcfa2a5059be8c"),
+     ("Scipipe.InParamPort_FromFloat", "8797bd84fe4529ce"),
+     ("Scipipe.InParamPort_FromInt", "7c687761b07c0588"),
      ("Scipipe.InParamPort_FromStr", "82f932a5d19fe28f"),
      ("Scipipe.InParamPort_Process", "9128e2db1c92bb3d"),
      ("Scipipe.InParamPort_Recv", "118dc198fdd7a631"),
